@@ -97,8 +97,10 @@ func fuzzChild(args []string) {
 	config.InitConfig()
 	c := config.Get()
 	c.MaxHops, c.MaxRedirect = 1, 20
-	tmp, _ := os.MkdirTemp("", "zv-fuzzchild")
-	defer os.RemoveAll(tmp)
+	tmp := os.TempDir()
+	if len(args) > 1 {
+		tmp = args[1] // scratch directory made (and removed) by the parent
+	}
 	in := bufio.NewReaderSize(os.Stdin, 1<<22)
 	out := bufio.NewWriter(os.Stdout)
 	for {
@@ -279,6 +281,7 @@ func runTarget(target string, data []byte, tmp string) string {
 // parent
 
 type fuzzProc struct {
+	dir    string
 	cmd    *exec.Cmd
 	in     io.WriteCloser
 	out    *bufio.Reader
@@ -332,7 +335,8 @@ var (
 )
 
 func spawnFuzzChild() *fuzzProc {
-	cmd := exec.Command(os.Args[0], "fuzzchild", strconv.Itoa(int(fuzzTimeout/time.Second)))
+	dir, _ := os.MkdirTemp("", "zv-fuzzchild")
+	cmd := exec.Command(os.Args[0], "fuzzchild", strconv.Itoa(int(fuzzTimeout/time.Second)), dir)
 	in, _ := cmd.StdinPipe()
 	outp, _ := cmd.StdoutPipe()
 	eb := &bytes.Buffer{}
@@ -340,13 +344,14 @@ func spawnFuzzChild() *fuzzProc {
 	if err := cmd.Start(); err != nil {
 		panic(err)
 	}
-	return &fuzzProc{cmd: cmd, in: in, out: bufio.NewReaderSize(outp, 1<<16), stderr: eb}
+	return &fuzzProc{dir: dir, cmd: cmd, in: in, out: bufio.NewReaderSize(outp, 1<<16), stderr: eb}
 }
 
 func (p *fuzzProc) kill() {
 	p.in.Close()
 	p.cmd.Process.Kill()
 	p.cmd.Wait()
+	os.RemoveAll(p.dir)
 }
 
 func setupFuzz() {
@@ -554,6 +559,7 @@ func execFuzz(in string) Result {
 			<-done
 		}
 		p.in.Close()
+		os.RemoveAll(p.dir)
 		site := target
 		if fs := fatalSite(p.stderr.String(), false); fs != "" {
 			site = fs
